@@ -127,7 +127,7 @@ int main(int argc, char **argv) {
         c.blobs = {*gx::bytes(0, 6), *gx::bytes(4, 4), *gx::bytes(16, 16), *gx::bytes(0, 40)};
         return c;
     });
-    bool ok = run_cases(a, ev, "c04-linux-port", a.n(20000, 1000000), 100, gen, run);
+    bool ok = run_cases(a, ev, "c04-linux-port", a.n(80000, 1000000), 100, gen, run);
     ev.write(a.out);
     return ok ? 0 : 1;
 }
